@@ -156,11 +156,11 @@ def _mc_runs(tier):
             ("core_2x4", dict(base, NR="2", NC="4", MaxDepth="6", WithCopies="FALSE")),
         ]
     return [
-        ("core_2x3", dict(base, NR="2", NC="3", MaxDepth="9", WithCopies="FALSE", MaxAdded="4")),
+        ("core_2x3", dict(base, NR="2", NC="3", MaxDepth="8", WithCopies="FALSE")),
         ("copies_2x3", dict(base, NR="2", NC="3", MaxDepth="6", WithCopies="TRUE")),
-        ("core_1x2", dict(base, NR="1", NC="2", MaxDepth="11", WithCopies="FALSE", MaxAdded="4")),
-        ("core_2x4", dict(base, NR="2", NC="4", MaxDepth="8", WithCopies="FALSE")),
-        ("core_2x2", dict(base, NR="2", NC="2", MaxDepth="9", WithCopies="TRUE")),
+        ("core_1x2", dict(base, NR="1", NC="2", MaxDepth="10", WithCopies="FALSE", MaxAdded="4")),
+        ("core_2x4", dict(base, NR="2", NC="4", MaxDepth="7", WithCopies="FALSE")),
+        ("core_2x2", dict(base, NR="2", NC="2", MaxDepth="7", WithCopies="TRUE")),
         ("alltimes_1x3", dict(base, NR="1", NC="3", MaxDepth="6", WithCopies="FALSE", AddTimes=("<-", "ReqTimes"))),
     ]
 
